@@ -11,8 +11,11 @@ class WritePotentialException(Exception):
 def _inFieldRange(value):
   """A number smaller in magnitude than 1e-99 needs a three digit exponent, which would push a
   record beyond its four fields of 15 characters: such values are written as zero."""
-  if len(u" % 14.7e" % value) > 15 and abs(value) < 1.0:
-    return 0.0
+  if len(u" % 14.7e" % value) > 15:
+    if abs(value) < 1.0:
+      return 0.0
+    # (1e100 or more: the three digit exponent cannot be dropped)
+    raise WritePotentialException("The value {} does not fit the 15 character fields of a DL_POLY TABLE file.".format(value))
   return value
 
 def _writePotential(potential, cutoff, gridPoints, meshResolution, out ):
